@@ -1,6 +1,6 @@
 (* C15 -- component/transform filters preserve rendering; anchors follow components. *)
 From Coq Require Import QArith Qcanon.
-From U2F Require Import Base.Prelude Geometry.Model Geometry.ModelProofs Geometry.Filters Geometry.FiltersProofs Geometry.FlattenProofs.
+From U2F Require Import Base.Prelude Geometry.Model Geometry.ModelProofs Geometry.Filters Geometry.FiltersProofs Geometry.FlattenProofs Geometry.TransformProofs.
 Open Scope Qc_scope.
 
 (* Decomposing (fully, or only the glyphs with transformed components) replaces a
@@ -44,3 +44,12 @@ Theorem C15_flattening_preserves_rendering : forall gs g g',
   forall F r, resolve F gs g = Some r -> resolve F gs g' = Some r.
 Proof. exact flatten_render. Qed.
 Print Assumptions C15_flattening_preserves_rendering.
+
+(* TransformationsFilter over a whole glyph set (own contours mapped, components rewritten to M.T.M^-1): every glyph
+   of the transformed set renders exactly the image, under the requested matrix, of what it rendered before --
+   all glyph sets, all invertible matrices, any nesting *)
+Theorem C15_transformed_set_renders_the_image : forall m gs, det m <> qc0 -> forall F g r,
+  resolve F gs g = Some r ->
+  resolve F (transform_set m gs) (transform_glyph m g) = Some (map (aff_contour m) r).
+Proof. exact transform_render. Qed.
+Print Assumptions C15_transformed_set_renders_the_image.
